@@ -366,6 +366,8 @@ class Ops(object):
                     return r
             raise OutOfSubset('attribute %s of opaque value' % name)
         if isinstance(obj, PyExc):
+            if name in getattr(obj, 'attrs', {}):
+                return obj.attrs[name]
             if name == 'args':
                 return obj.args_
             raise OutOfSubset('exception attribute %s' % name)
